@@ -48,6 +48,17 @@ TEXT_LINES = [
     "router bgp 65001",
     " neighbor 10.9.8.7 remote-as 12 description KeepMe seattle-core PlyRouter",
     "snmp-server community seattle-core ro",
+    # every format class at its edges: over-long / one-character / empty md5 salt, sha512 with rounds,
+    # long type 7, hex, digits, $9$ that does not decrypt, a lone hash without keyword
+    "username backup secret 5 $1$123456789$0rN7R8PKwC30AsCGA77vy.",
+    "username b2 secret 5 $1$a$0rN7R8PKwC30AsCGA77vy.",
+    "username b3 secret 5 $1$$0rN7R8PKwC30AsCGA77vy.",
+    "username b4 secret 6 $6$rounds=5000$3AHOVcjq$7ELSZgnu/6DKRYfmt.5CJQXelsz4BIPWdkry3AHOVcjqx29GNUbipw18FMTahov07ELSZgnu/6DKRYfmt.5CJQ",
+    "key 7 00281C0803163B0A0E28425A0C011128425A5E577E7E727F6B6C6F",
+    "snmp-server community c0ffee77AB ro",
+    "snmp-server community 918273645 ro",
+    'set system y secret "$9$abc!defghij"',
+    "something $1$wxyz$29GNUbipw18FMTahov07EL here",
 ]
 TEXT = "".join(l + "\n" for l in TEXT_LINES)
 
